@@ -485,6 +485,20 @@ func init() {
 		"hash/crc32.ChecksumIEEE": func(m *Machine, caller *frame, fn *ssa.Function, args []Value, pos token.Pos) Value {
 			return crcFinal(crcUpdate(BV(32, 0), args[0].(BSlice)))
 		},
+		// crc32.Update(crc, table, p): continues the fold from the state behind crc (crc = crc_fin(st), or 0 = nothing fed yet)
+		"hash/crc32.Update": func(m *Machine, caller *frame, fn *ssa.Function, args []Value, pos token.Pos) Value {
+			c := args[0].(*Term)
+			var st *Term
+			switch {
+			case c.IsConst() && c.val == 0:
+				st = BV(32, 0)
+			case c.op == "uf:crc_fin":
+				st = c.args[0]
+			default:
+				st = UF("crc_unfin", 32, c)
+			}
+			return crcFinal(crcUpdate(st, args[2].(BSlice)))
+		},
 		"hash/crc32.NewIEEE": func(m *Machine, caller *frame, fn *ssa.Function, args []Value, pos token.Pos) Value {
 			return Iface{t: errType, v: &CRCState{st: BV(32, 0)}}
 		},
